@@ -74,6 +74,11 @@ const APIS: &[ApiDef] = &[
     ApiDef { name: "try_find", fallible: true, takes_input: true, overlapping: false, overlapping_iter: false, stream: false },
     ApiDef { name: "find_overlapping", fallible: false, takes_input: true, overlapping: true, overlapping_iter: false, stream: false },
     ApiDef { name: "try_find_overlapping", fallible: true, takes_input: true, overlapping: true, overlapping_iter: false, stream: false },
+    // the same two calls on an OverlappingState that an earlier step (in the
+    // OTHER anchoring mode, where that is supported) has already advanced:
+    // rejection must not depend on what the state went through
+    ApiDef { name: "find_overlapping(used state)", fallible: false, takes_input: true, overlapping: true, overlapping_iter: false, stream: false },
+    ApiDef { name: "try_find_overlapping(used state)", fallible: true, takes_input: true, overlapping: true, overlapping_iter: false, stream: false },
     ApiDef { name: "find_iter", fallible: false, takes_input: true, overlapping: false, overlapping_iter: false, stream: false },
     ApiDef { name: "try_find_iter", fallible: true, takes_input: true, overlapping: false, overlapping_iter: false, stream: false },
     ApiDef { name: "find_overlapping_iter", fallible: false, takes_input: true, overlapping: true, overlapping_iter: true, stream: false },
@@ -147,6 +152,28 @@ fn call_api_shape(ac: &AhoCorasick, name: &str, hay: &str, anc: Anchored, npats:
                 }
             }
             first
+        }
+        "find_overlapping(used state)" | "try_find_overlapping(used state)" => {
+            let other = if anc.is_anchored() { Anchored::No } else { Anchored::Yes };
+            let mut st = OverlappingState::start();
+            // warm-up in the other mode, on the whole haystack and on every
+            // suffix until a step leaves a match in the state (errors and
+            // panics of the warm-up are not the subject here)
+            let _ = catch_unwind(AssertUnwindSafe(|| {
+                for s0 in 0..=hay.len() {
+                    let mut w = OverlappingState::start();
+                    if ac.try_find_overlapping(Input::new(hay).span(s0..hay.len()).anchored(other), &mut w).is_ok() && w.get_match().is_some() {
+                        st = w;
+                        break;
+                    }
+                }
+            }));
+            if name.starts_with("try_") {
+                ac.try_find_overlapping(inp(), &mut st).map_err(|_| ())
+            } else {
+                ac.find_overlapping(inp(), &mut st);
+                Ok(())
+            }
         }
         "find_iter" => {
             ac.find_iter(inp()).take(cap).count();
